@@ -599,6 +599,21 @@ type Contracts struct {
 	Consts map[string]*ConstDef
 	Files  []string
 	Locks  []LockEntry // lock order table: "lock Type.field $Ghost", earlier entries are acquired first
+	Perms  []*PermTable
+}
+
+// PermTable is a contract on a declaration: the RPC API struct of a module. Every method (function
+// field of the Internal struct) must carry one of the four permission levels, and must be at least as
+// restricted as the policy says.
+type PermTable struct {
+	Pkg      string
+	Type     string
+	Props    []string
+	Requires map[string]string // method -> minimum level
+	Order    []string
+	Closed   bool // every method of the struct must be listed
+	File     string
+	Line     int
 }
 
 type LockEntry struct {
@@ -615,7 +630,7 @@ var clauseKeywords = map[string]bool{
 	"property": true, "requires": true, "ensures": true, "nopanic": true, "overflow": true,
 	"untrusted": true, "loop": true, "modifies": true, "assume": true, "trusted": true,
 	"fresh": true, "params": true, "results": true, "let": true, "assert": true, "var": true,
-	"dropped": true, "param": true, "end": true, "checks": true, "effect": true, "noframe": true, "lock": true,
+	"dropped": true, "param": true, "end": true, "checks": true, "effect": true, "noframe": true, "lock": true, "permtable": true, "require": true, "closed": true,
 }
 
 // parseContractFile reads a zz_contracts_verif.go file.
@@ -655,6 +670,7 @@ func (c *Contracts) parseContractFile(path, pkgPath string) error {
 	}
 	var cur *FuncSpec
 	var curLemma *Lemma
+	var curPerm *PermTable
 	fail := func(n int, f string, a ...any) error {
 		return fmt.Errorf("%s:%d: %s", path, n, fmt.Sprintf(f, a...))
 	}
@@ -678,6 +694,7 @@ func (c *Contracts) parseContractFile(path, pkgPath string) error {
 		switch kw {
 		case "func", "extern":
 			curLemma = nil
+			curPerm = nil
 			name := rest
 			cur = &FuncSpec{Pkg: pkgPath, Name: name, Extern: kw == "extern", Loops: map[int]*LoopSpec{}, File: path, Line: l.n, ParamSpecs: map[string]*ParamSpec{}}
 			key := pkgPath + "::" + name
@@ -695,7 +712,9 @@ func (c *Contracts) parseContractFile(path, pkgPath string) error {
 			c.Funcs[key] = cur
 		case "property":
 			ps := strings.Fields(rest)
-			if curLemma != nil {
+			if curPerm != nil {
+				curPerm.Props = append(curPerm.Props, ps...)
+			} else if curLemma != nil {
 				curLemma.Props = append(curLemma.Props, ps...)
 			} else if cur != nil {
 				cur.Props = append(cur.Props, ps...)
@@ -865,6 +884,7 @@ func (c *Contracts) parseContractFile(path, pkgPath string) error {
 			}
 		case "lemma":
 			cur = nil
+			curPerm = nil
 			// lemma name: expr      OR   lemma name(x T, y T)   followed by let/assume/assert statements
 			if k := strings.Index(rest, ":"); k >= 0 && !strings.Contains(rest[:k], "(") {
 				cl, err := parseClause(l.n, rest[k+1:])
@@ -922,6 +942,23 @@ func (c *Contracts) parseContractFile(path, pkgPath string) error {
 			for _, v := range vars {
 				curLemma.Stmts = append(curLemma.Stmts, LemmaStmt{Kind: "var", Names: []string{v.Name}, Type: v.Type})
 			}
+		case "permtable":
+			cur = nil
+			curLemma = nil
+			curPerm = &PermTable{Pkg: pkgPath, Type: strings.TrimSpace(rest), Requires: map[string]string{}, File: path, Line: l.n}
+			c.Perms = append(c.Perms, curPerm)
+		case "require":
+			fs := strings.Fields(rest)
+			if curPerm == nil || len(fs) != 2 {
+				return fail(l.n, "require <Method> <level> inside a permtable")
+			}
+			curPerm.Requires[fs[0]] = fs[1]
+			curPerm.Order = append(curPerm.Order, fs[0])
+		case "closed":
+			if curPerm == nil {
+				return fail(l.n, "closed outside permtable")
+			}
+			curPerm.Closed = true
 		case "lock":
 			// lock Type.field $Ghost
 			fs := strings.Fields(rest)
@@ -943,6 +980,7 @@ func (c *Contracts) parseContractFile(path, pkgPath string) error {
 		case "end":
 			cur = nil
 			curLemma = nil
+			curPerm = nil
 		default:
 			return fail(l.n, "unknown clause %q", kw)
 		}
